@@ -1968,11 +1968,21 @@ enum V {
     Z(i128),
     Absent,
     Arr(Vec<Vec<V>>),
+    /// null offset
+    Null,
+    /// non-null offset to an opaque child: the child's bytes
+    Bytes(Vec<u8>),
+    /// (reread only, resolved by `shard_obj`) non-null offset: the offset field's own byte range in the
+    /// table and the raw offset value the real getter returned
+    At(std::ops::Range<usize>, u32),
 }
 fn cv(v: &V) -> String {
     match v {
         V::Z(z) => format!("VZ {}", cz(*z)),
         V::Absent => "VAbsent".into(),
+        V::Null => "VNull".into(),
+        V::Bytes(b) => format!("VBytes {}", cbytes(b)),
+        V::At(..) => "VBytes []".into(),
         V::Arr(rows) => format!("VArr {}", clist(rows.iter(), |r| format!("VTab {}", clist(r.iter(), cv)))),
     }
 }
@@ -2014,6 +2024,128 @@ where
     st.count(&format!("shard.{}", ty));
     st.evaluations += 1;
     cw.push(format!("CSchema (W_{}, R_{}, {}, {}, {})", ty, ty, cvs(&written), cbytes(&bytes), cvs(&rr)));
+}
+
+fn zu32(x: u32) -> V {
+    V::Z(x as i128)
+}
+fn opti16(x: Option<i16>) -> V {
+    x.map(zi16).unwrap_or(V::Absent)
+}
+fn opt32(x: Option<u32>) -> V {
+    x.map(zu32).unwrap_or(V::Absent)
+}
+/// the children a `written` value list carries, in field order (array rows in row order)
+fn written_kids(vs: &[V], out: &mut Vec<Vec<u8>>) {
+    for v in vs {
+        match v {
+            V::Bytes(b) => out.push(b.clone()),
+            V::Arr(rows) => rows.iter().for_each(|r| written_kids(r, out)),
+            _ => {}
+        }
+    }
+}
+/// replace every `V::At(range, off)` by the bytes really found at `off` (length: the matching written child),
+/// overwrite the offset field in `own` by the 0xFF placeholder; false = the embedded child differs from the
+/// child compiled standalone
+fn resolve_kids(vs: &mut [V], all: &[u8], own: &mut [u8], expect: &[Vec<u8>], i: &mut usize, kids: &mut Vec<Vec<u8>>) -> bool {
+    for v in vs.iter_mut() {
+        match v {
+            V::At(range, off) => {
+                let len = expect.get(*i).map(|e| e.len()).unwrap_or(0);
+                let off = *off as usize;
+                let Some(slice) = all.get(off..off + len) else { return false };
+                if let Some(e) = expect.get(*i) {
+                    if e.as_slice() != slice {
+                        return false;
+                    }
+                }
+                for k in range.clone() {
+                    if let Some(x) = own.get_mut(k) {
+                        *x = 0xFF;
+                    }
+                }
+                kids.push(slice.to_vec());
+                *v = V::Bytes(slice.to_vec());
+                *i += 1;
+            }
+            V::Arr(rows) => {
+                for r in rows.iter_mut() {
+                    if !resolve_kids(r, all, own, expect, i, kids) {
+                        return false;
+                    }
+                }
+            }
+            _ => {}
+        }
+    }
+    true
+}
+
+/// a table WITH offsets: `reread` returns (length of the table's own fields, R_T values with `V::At` for the
+/// non-null offsets); the children are opaque and were compiled standalone by the caller (`V::Bytes` in `written`)
+fn shard_obj<T>(st: &mut Stats, cw: &mut CaseWriter, ty: &str, v: &T, written: Vec<V>, reread: &dyn Fn(&[u8]) -> Option<(usize, Vec<V>)>)
+where
+    T: FontWrite + Validate,
+{
+    let bytes = match catch(AssertUnwindSafe(|| dump_table(v))) {
+        Ok(Ok(b)) => b,
+        _ => {
+            st.count("shard.not-compiled");
+            return;
+        }
+    };
+    let (own_len, mut rr) = match catch(AssertUnwindSafe(|| reread(&bytes))) {
+        Ok(Some(r)) if r.0 <= bytes.len() => r,
+        _ => {
+            st.count("shard.not-reread");
+            return;
+        }
+    };
+    let mut expect = Vec::new();
+    written_kids(&written, &mut expect);
+    let mut own = bytes[..own_len].to_vec();
+    let mut kids = Vec::new();
+    let mut i = 0usize;
+    if !resolve_kids(&mut rr, &bytes, &mut own, &expect, &mut i, &mut kids) {
+        st.count("shard.child-bytes-differ");
+        st.count(&format!("shard.child-bytes-differ.{}", ty));
+        return;
+    }
+    st.count(&format!("shard.{}", ty));
+    st.evaluations += 1;
+    cw.push(format!("CSchemaObj W_{} R_{} ({}) ({}) ({}) ({})", ty, ty, cvs(&written), cbytes(&own), clist(kids.iter(), |k| cbytes(k)), cvs(&rr)));
+}
+/// compile a child standalone
+fn kid<T: FontWrite + Validate>(v: &T) -> V {
+    V::Bytes(dump_table(v).unwrap_or_default())
+}
+fn kid_opt<T: FontWrite + Validate>(v: &Option<T>) -> V {
+    v.as_ref().map(kid).unwrap_or(V::Null)
+}
+
+/// a value written through a format enum (`match self`) and re-read through the enum's `match format`
+fn shard_union<T>(st: &mut Stats, cw: &mut CaseWriter, en: &str, variant: &str, v: &T, written: Vec<V>, reread: &dyn Fn(&[u8]) -> Option<(&'static str, Vec<V>)>)
+where
+    T: FontWrite + Validate,
+{
+    let bytes = match catch(AssertUnwindSafe(|| dump_table(v))) {
+        Ok(Ok(b)) => b,
+        _ => {
+            st.count("shard.not-compiled");
+            return;
+        }
+    };
+    let (vn, rr) = match catch(AssertUnwindSafe(|| reread(&bytes))) {
+        Ok(Some(r)) => r,
+        _ => {
+            st.count("shard.not-reread");
+            return;
+        }
+    };
+    st.count(&format!("shard.union.{}.{}", en, variant));
+    st.evaluations += 1;
+    cw.push(format!("CUnion UW_{} UR_{} \"{}\" ({}) ({}) \"{}\" ({})", en, en, variant, cvs(&written), cbytes(&bytes), vn, cvs(&rr)));
 }
 
 fn shards(st: &mut Stats, cw: &mut CaseWriter, rng: &mut Rng, thorough: bool) {
@@ -2106,6 +2238,34 @@ fn shards(st: &mut Stats, cw: &mut CaseWriter, rng: &mut Rng, thorough: bool) {
                 let t = rt::layout::ClassDefFormat2::read(FontData::new(b)).ok()?;
                 Some(vec![zu16(t.class_format()), zu16(t.class_range_count()), rows(t.class_range_records().iter().map(|r| (r.start_glyph_id().to_u16(), r.end_glyph_id().to_u16(), r.class())).collect())])
             });
+            // round 7: the same values through the format ENUMS (write side `match self`, read side `match format`)
+            let rd_cov = |b: &[u8]| -> Option<(&'static str, Vec<V>)> {
+                match rt::layout::CoverageTable::read(FontData::new(b)).ok()? {
+                    rt::layout::CoverageTable::Format1(t) => Some(("Format1", vec![zu16(t.coverage_format()), zu16(t.glyph_count()), scal(t.glyph_array().iter().map(|g| g.get().to_u16()))])),
+                    rt::layout::CoverageTable::Format2(t) => Some(("Format2", vec![zu16(t.coverage_format()), zu16(t.range_count()), rows(t.range_records().iter().map(|r| (r.start_glyph_id().to_u16(), r.end_glyph_id().to_u16(), r.start_coverage_index())).collect())])),
+                }
+            };
+            shard_union(st, cw, "CoverageTable", "Format1", &CoverageTable::Format1(c1.clone()), vec![V::Z(0), V::Z(0), scal(gl.clone())], &rd_cov);
+            shard_union(st, cw, "CoverageTable", "Format2", &CoverageTable::Format2(c2.clone()), vec![V::Z(0), V::Z(0), rows(rr.clone())], &rd_cov);
+            let rd_cd = |b: &[u8]| -> Option<(&'static str, Vec<V>)> {
+                match rt::layout::ClassDef::read(FontData::new(b)).ok()? {
+                    rt::layout::ClassDef::Format1(t) => Some(("Format1", vec![zu16(t.class_format()), zu16(t.start_glyph_id().to_u16()), zu16(t.glyph_count()), scal(t.class_value_array().iter().map(|g| g.get()))])),
+                    rt::layout::ClassDef::Format2(t) => Some(("Format2", vec![zu16(t.class_format()), zu16(t.class_range_count()), rows(t.class_range_records().iter().map(|r| (r.start_glyph_id().to_u16(), r.end_glyph_id().to_u16(), r.class())).collect())])),
+                }
+            };
+            shard_union(st, cw, "ClassDef", "Format1", &ClassDef::Format1(d1.clone()), vec![V::Z(0), zu16(start), V::Z(0), scal(gl.clone())], &rd_cd);
+            shard_union(st, cw, "ClassDef", "Format2", &ClassDef::Format2(d2.clone()), vec![V::Z(0), V::Z(0), rows(rr.clone())], &rd_cd);
+            {
+                // ClipBox: one-byte format tag
+                let q = [r16(rng) as i16, r16(rng) as i16, r16(rng) as i16, r16(rng) as i16];
+                let cb = wt::colr::ClipBox::Format1(wt::colr::ClipBoxFormat1::new(FWord::new(q[0]), FWord::new(q[1]), FWord::new(q[2]), FWord::new(q[3])));
+                shard_union(st, cw, "ClipBox", "Format1", &cb, vec![V::Z(0), zi16(q[0]), zi16(q[1]), zi16(q[2]), zi16(q[3])], &|b| {
+                    match rt::colr::ClipBox::read(FontData::new(b)).ok()? {
+                        rt::colr::ClipBox::Format1(t) => Some(("Format1", vec![V::Z(t.format() as i128), zi16(t.x_min().to_i16()), zi16(t.y_min().to_i16()), zi16(t.x_max().to_i16()), zi16(t.y_max().to_i16())])),
+                        rt::colr::ClipBox::Format2(_) => Some(("Format2", vec![])),
+                    }
+                });
+            }
             // SequenceRule: glyph_count = plus_one(len), read back with subtract(.., 1)
             let m = len(rng);
             let recs: Vec<(u16, u16)> = (0..m).map(|_| (r16(rng), r16(rng))).collect();
@@ -2140,6 +2300,460 @@ fn shards(st: &mut Stats, cw: &mut CaseWriter, rng: &mut Rng, thorough: bool) {
                 Some(vec![zu16(t.format()), zu16(reserved), V::Z(t.length() as i128), V::Z(t.language() as i128), V::Z(t.num_groups() as i128), rows3(t.groups().iter().map(|r| (r.start_char_code(), r.end_char_code(), r.start_glyph_id())).collect())])
             });
         }
+        shards_round7(st, cw, rng);
+    }
+}
+
+/// round 7: more offset-free types (version-gated 4-byte scalars, fixed-count byte array, 8-byte scalars,
+/// four arrays with a plus_one count, record array with a 4-byte member) and types WITH offsets
+/// (`CSchemaObj`: nullable / non-nullable, 2- and 4-byte, version-gated offsets, offsets inside record arrays)
+fn shards_round7(st: &mut Stats, cw: &mut CaseWriter, rng: &mut Rng) {
+    use write_fonts::read::tables as rt;
+    let r16 = |rng: &mut Rng| -> u16 {
+        match rng.below(4) {
+            0 => *rng.pick(&[0u16, 1, 2, 255, 256, 32767, 32768, 65534, 65535]),
+            _ => rng.next_u32() as u16,
+        }
+    };
+    let ri16 = |rng: &mut Rng| -> i16 { r16(rng) as i16 };
+    let r32 = |rng: &mut Rng| -> u32 {
+        match rng.below(4) {
+            0 => *rng.pick(&[0u32, 1, 255, 256, 65535, 65536, 0x7FFF_FFFF, 0x8000_0000, 0xFFFF_FFFE, 0xFFFF_FFFF]),
+            _ => rng.next_u32(),
+        }
+    };
+    // array lengths with the 0 / 1 / 255 / 256 boundaries (the big ones rare)
+    let len = |rng: &mut Rng| -> usize {
+        if rng.chance(1, 16) {
+            *rng.pick(&[255usize, 256])
+        } else {
+            *rng.pick(&[0usize, 0, 1, 1, 2, 3, 5, 9])
+        }
+    };
+    let slen = |rng: &mut Rng| -> usize { *rng.pick(&[0usize, 0, 1, 1, 2, 3, 5, 9]) };
+    let be16 = |b: &[u8], r: std::ops::Range<usize>| V::Z(u16::from_be_bytes([b[r.start], b[r.start + 1]]) as i128);
+    let tag = |rng: &mut Rng| -> Tag {
+        let mut c = [0u8; 4];
+        for x in c.iter_mut() {
+            *x = 0x20 + rng.below(0x5F) as u8;
+        }
+        Tag::new(&c)
+    };
+    let ztag = |t: Tag| V::Z(u32::from_be_bytes(t.to_be_bytes()) as i128);
+
+    // OS/2: hand-computed version (0 / 1 / 4 / 5), GVerU-gated 4- and 2-byte scalars, [u8; 10]
+    {
+        use wt::os2::*;
+        let which = rng.below(4);
+        let mut panose = [0u8; 10];
+        for x in panose.iter_mut() {
+            *x = *rng.pick(&[0u8, 1, 2, 127, 128, 254, 255, 7, 42]);
+        }
+        let mut o = Os2 {
+            x_avg_char_width: ri16(rng),
+            us_weight_class: r16(rng),
+            us_width_class: r16(rng),
+            fs_type: r16(rng),
+            y_subscript_x_size: ri16(rng),
+            y_subscript_y_size: ri16(rng),
+            y_subscript_x_offset: ri16(rng),
+            y_subscript_y_offset: ri16(rng),
+            y_superscript_x_size: ri16(rng),
+            y_superscript_y_size: ri16(rng),
+            y_superscript_x_offset: ri16(rng),
+            y_superscript_y_offset: ri16(rng),
+            y_strikeout_size: ri16(rng),
+            y_strikeout_position: ri16(rng),
+            s_family_class: ri16(rng),
+            panose_10: panose,
+            ul_unicode_range_1: r32(rng),
+            ul_unicode_range_2: r32(rng),
+            ul_unicode_range_3: r32(rng),
+            ul_unicode_range_4: r32(rng),
+            ach_vend_id: tag(rng),
+            fs_selection: SelectionFlags::from_bits_truncate(r16(rng)),
+            us_first_char_index: r16(rng),
+            us_last_char_index: r16(rng),
+            s_typo_ascender: ri16(rng),
+            s_typo_descender: ri16(rng),
+            s_typo_line_gap: ri16(rng),
+            us_win_ascent: r16(rng),
+            us_win_descent: r16(rng),
+            ..Default::default()
+        };
+        if which >= 1 {
+            o.ul_code_page_range_1 = Some(r32(rng));
+            o.ul_code_page_range_2 = Some(r32(rng));
+        }
+        if which >= 2 {
+            o.sx_height = Some(ri16(rng));
+            o.s_cap_height = Some(ri16(rng));
+            o.us_default_char = Some(r16(rng));
+            o.us_break_char = Some(r16(rng));
+            o.us_max_context = Some(r16(rng));
+        }
+        if which >= 3 {
+            o.us_lower_optical_point_size = Some(r16(rng));
+            o.us_upper_optical_point_size = Some(r16(rng));
+        }
+        // `version` is hand-computed (Opaque): what write-fonts/src/tables/os2.rs compute_version yields here
+        let ver = [0u16, 1, 4, 5][which as usize];
+        let bytes10 = |p: &[u8]| V::Arr(p.iter().map(|x| vec![V::Z(*x as i128)]).collect());
+        let w = vec![
+            zu16(ver),
+            zi16(o.x_avg_char_width),
+            zu16(o.us_weight_class),
+            zu16(o.us_width_class),
+            zu16(o.fs_type),
+            zi16(o.y_subscript_x_size),
+            zi16(o.y_subscript_y_size),
+            zi16(o.y_subscript_x_offset),
+            zi16(o.y_subscript_y_offset),
+            zi16(o.y_superscript_x_size),
+            zi16(o.y_superscript_y_size),
+            zi16(o.y_superscript_x_offset),
+            zi16(o.y_superscript_y_offset),
+            zi16(o.y_strikeout_size),
+            zi16(o.y_strikeout_position),
+            zi16(o.s_family_class),
+            bytes10(&o.panose_10),
+            zu32(o.ul_unicode_range_1),
+            zu32(o.ul_unicode_range_2),
+            zu32(o.ul_unicode_range_3),
+            zu32(o.ul_unicode_range_4),
+            ztag(o.ach_vend_id),
+            zu16(o.fs_selection.bits()),
+            zu16(o.us_first_char_index),
+            zu16(o.us_last_char_index),
+            zi16(o.s_typo_ascender),
+            zi16(o.s_typo_descender),
+            zi16(o.s_typo_line_gap),
+            zu16(o.us_win_ascent),
+            zu16(o.us_win_descent),
+            opt32(o.ul_code_page_range_1),
+            opt32(o.ul_code_page_range_2),
+            opti16(o.sx_height),
+            opti16(o.s_cap_height),
+            opt16(o.us_default_char),
+            opt16(o.us_break_char),
+            opt16(o.us_max_context),
+            opt16(o.us_lower_optical_point_size),
+            opt16(o.us_upper_optical_point_size),
+        ];
+        shard(st, cw, "Os2", &o, w, &|b| {
+            let t = rt::os2::Os2::read(FontData::new(b)).ok()?;
+            Some(vec![
+                zu16(t.version()),
+                zi16(t.x_avg_char_width()),
+                zu16(t.us_weight_class()),
+                zu16(t.us_width_class()),
+                zu16(t.fs_type()),
+                zi16(t.y_subscript_x_size()),
+                zi16(t.y_subscript_y_size()),
+                zi16(t.y_subscript_x_offset()),
+                zi16(t.y_subscript_y_offset()),
+                zi16(t.y_superscript_x_size()),
+                zi16(t.y_superscript_y_size()),
+                zi16(t.y_superscript_x_offset()),
+                zi16(t.y_superscript_y_offset()),
+                zi16(t.y_strikeout_size()),
+                zi16(t.y_strikeout_position()),
+                zi16(t.s_family_class()),
+                bytes10(t.panose_10()),
+                zu32(t.ul_unicode_range_1()),
+                zu32(t.ul_unicode_range_2()),
+                zu32(t.ul_unicode_range_3()),
+                zu32(t.ul_unicode_range_4()),
+                ztag(t.ach_vend_id()),
+                zu16(t.fs_selection().bits()),
+                zu16(t.us_first_char_index()),
+                zu16(t.us_last_char_index()),
+                zi16(t.s_typo_ascender()),
+                zi16(t.s_typo_descender()),
+                zi16(t.s_typo_line_gap()),
+                zu16(t.us_win_ascent()),
+                zu16(t.us_win_descent()),
+                opt32(t.ul_code_page_range_1()),
+                opt32(t.ul_code_page_range_2()),
+                opti16(t.sx_height()),
+                opti16(t.s_cap_height()),
+                opt16(t.us_default_char()),
+                opt16(t.us_break_char()),
+                opt16(t.us_max_context()),
+                opt16(t.us_lower_optical_point_size()),
+                opt16(t.us_upper_optical_point_size()),
+            ])
+        });
+    }
+    // head: 4-byte Fixed / u32, 8-byte LongDateTime, leading and trailing literals
+    {
+        use wt::head::*;
+        let r64 = |rng: &mut Rng| -> i64 {
+            match rng.below(4) {
+                0 => *rng.pick(&[0i64, 1, -1, i64::MAX, i64::MIN, 0xFFFF_FFFF, 0x1_0000_0000]),
+                _ => rng.next_u64() as i64,
+            }
+        };
+        let mut h = Head::new(Fixed::from_bits(r32(rng) as i32), r32(rng), r16(rng), r16(rng), LongDateTime::new(r64(rng)), LongDateTime::new(r64(rng)), ri16(rng), ri16(rng), ri16(rng), ri16(rng), MacStyle::from_bits_truncate(r16(rng)), r16(rng), ri16(rng));
+        h.magic_number = r32(rng);
+        h.font_direction_hint = ri16(rng);
+        let z64 = |d: LongDateTime| V::Z(d.as_secs() as u64 as i128);
+        let w = vec![V::Z(0), zu32(h.font_revision.to_bits() as u32), zu32(h.checksum_adjustment), zu32(h.magic_number), zu16(h.flags), zu16(h.units_per_em), z64(h.created), z64(h.modified), zi16(h.x_min), zi16(h.y_min), zi16(h.x_max), zi16(h.y_max), zu16(h.mac_style.bits()), zu16(h.lowest_rec_ppem), zi16(h.font_direction_hint), zi16(h.index_to_loc_format), V::Z(0)];
+        shard(st, cw, "Head", &h, w, &|b| {
+            let t = rt::head::Head::read(FontData::new(b)).ok()?;
+            let ver = t.version();
+            Some(vec![V::Z(((ver.major as i128) << 16) | ver.minor as i128), zu32(t.font_revision().to_bits() as u32), zu32(t.checksum_adjustment()), zu32(t.magic_number()), zu16(t.flags()), zu16(t.units_per_em()), z64(t.created()), z64(t.modified()), zi16(t.x_min()), zi16(t.y_min()), zi16(t.x_max()), zi16(t.y_max()), zu16(t.mac_style().bits()), zu16(t.lowest_rec_ppem()), zi16(t.font_direction_hint()), zi16(t.index_to_loc_format()), zi16(t.glyph_data_format())])
+        });
+    }
+    // vhea: Version16Dot16 literal 1.1, reserved literals
+    {
+        let h = wt::vhea::Vhea::new(FWord::new(ri16(rng)), FWord::new(ri16(rng)), FWord::new(ri16(rng)), UfWord::new(r16(rng)), FWord::new(ri16(rng)), FWord::new(ri16(rng)), FWord::new(ri16(rng)), ri16(rng), ri16(rng), ri16(rng), r16(rng));
+        let w = vec![V::Z(0), zi16(h.ascender.to_i16()), zi16(h.descender.to_i16()), zi16(h.line_gap.to_i16()), zu16(h.advance_height_max.to_u16()), zi16(h.min_top_side_bearing.to_i16()), zi16(h.min_bottom_side_bearing.to_i16()), zi16(h.y_max_extent.to_i16()), zi16(h.caret_slope_rise), zi16(h.caret_slope_run), zi16(h.caret_offset), V::Z(0), V::Z(0), V::Z(0), V::Z(0), V::Z(0), zu16(h.number_of_long_ver_metrics)];
+        shard(st, cw, "Vhea", &h, w, &|b| {
+            let t = rt::vhea::Vhea::read(FontData::new(b)).ok()?;
+            let sh = t.shape();
+            Some(vec![zu32(u32::from_be_bytes(t.version().to_be_bytes())), zi16(t.ascender().to_i16()), zi16(t.descender().to_i16()), zi16(t.line_gap().to_i16()), zu16(t.advance_height_max().to_u16()), zi16(t.min_top_side_bearing().to_i16()), zi16(t.min_bottom_side_bearing().to_i16()), zi16(t.y_max_extent().to_i16()), zi16(t.caret_slope_rise()), zi16(t.caret_slope_run()), zi16(t.caret_offset()), be16(b, sh.reserved1_byte_range()), be16(b, sh.reserved2_byte_range()), be16(b, sh.reserved3_byte_range()), be16(b, sh.reserved4_byte_range()), zi16(t.metric_data_format()), zu16(t.number_of_long_ver_metrics())])
+        });
+    }
+    // LangSys (literal-0 reserved offset), ChainedSequenceRule (4 arrays, one plus_one count), Ligature (plus_one)
+    let rand_langsys = |rng: &mut Rng, n: usize| -> wt::layout::LangSys {
+        let mut ls = wt::layout::LangSys::new((0..n).map(|_| r16(rng)).collect());
+        ls.required_feature_index = r16(rng);
+        ls
+    };
+    {
+        use wt::layout::*;
+        let n = len(rng);
+        let ls = rand_langsys(rng, n);
+        shard(st, cw, "LangSys", &ls, vec![V::Z(0), zu16(ls.required_feature_index), V::Z(0), scal(ls.feature_indices.clone())], &|b| {
+            let t = rt::layout::LangSys::read(FontData::new(b)).ok()?;
+            Some(vec![be16(b, t.shape().lookup_order_offset_byte_range()), zu16(t.required_feature_index()), zu16(t.feature_index_count()), scal(t.feature_indices().iter().map(|g| g.get()))])
+        });
+        let seq = |rng: &mut Rng| -> Vec<u16> {
+            let n = len(rng);
+            (0..n).map(|_| r16(rng)).collect()
+        };
+        let (bt, inp, la) = (seq(rng), seq(rng), seq(rng));
+        let m = len(rng);
+        let recs: Vec<(u16, u16)> = (0..m).map(|_| (r16(rng), r16(rng))).collect();
+        let gids = |v: &[u16]| -> Vec<GlyphId16> { v.iter().map(|g| gid(*g)).collect() };
+        let rows2 = |it: Vec<(u16, u16)>| V::Arr(it.into_iter().map(|r| vec![zu16(r.0), zu16(r.1)]).collect());
+        let cr = ChainedSequenceRule::new(gids(&bt), gids(&inp), gids(&la), recs.iter().map(|r| SequenceLookupRecord::new(r.0, r.1)).collect());
+        shard(st, cw, "ChainedSequenceRule", &cr, vec![V::Z(0), scal(bt.clone()), V::Z(0), scal(inp.clone()), V::Z(0), scal(la.clone()), V::Z(0), rows2(recs.clone())], &|b| {
+            let t = rt::layout::ChainedSequenceRule::read(FontData::new(b)).ok()?;
+            Some(vec![
+                zu16(t.backtrack_glyph_count()),
+                scal(t.backtrack_sequence().iter().map(|g| g.get().to_u16())),
+                zu16(t.input_glyph_count()),
+                scal(t.input_sequence().iter().map(|g| g.get().to_u16())),
+                zu16(t.lookahead_glyph_count()),
+                scal(t.lookahead_sequence().iter().map(|g| g.get().to_u16())),
+                zu16(t.seq_lookup_count()),
+                rows2(t.seq_lookup_records().iter().map(|r| (r.sequence_index(), r.lookup_list_index())).collect()),
+            ])
+        });
+        let comps = seq(rng);
+        let lg = r16(rng);
+        let lig = wt::gsub::Ligature::new(gid(lg), gids(&comps));
+        shard(st, cw, "Ligature", &lig, vec![zu16(lg), V::Z(0), scal(comps.clone())], &|b| {
+            let t = rt::gsub::Ligature::read(FontData::new(b)).ok()?;
+            Some(vec![zu16(t.ligature_glyph().to_u16()), zu16(t.component_count()), scal(t.component_glyph_ids().iter().map(|g| g.get().to_u16()))])
+        });
+    }
+    // STAT AxisValueFormat4: format literal, count before two stored scalars, records with a 4-byte Fixed
+    {
+        use wt::stat::*;
+        let n = len(rng);
+        let recs: Vec<(u16, u32)> = (0..n).map(|_| (r16(rng), r32(rng))).collect();
+        let a = AxisValueFormat4::new(AxisValueTableFlags::from_bits_truncate(r16(rng)), NameId::new(r16(rng)), recs.iter().map(|r| AxisValueRecord::new(r.0, Fixed::from_bits(r.1 as i32))).collect());
+        let rows = |it: Vec<(u16, u32)>| V::Arr(it.into_iter().map(|r| vec![zu16(r.0), zu32(r.1)]).collect());
+        shard(st, cw, "AxisValueFormat4", &a, vec![V::Z(0), V::Z(0), zu16(a.flags.bits()), zu16(a.value_name_id.to_u16()), rows(recs.clone())], &|b| {
+            let t = rt::stat::AxisValueFormat4::read(FontData::new(b)).ok()?;
+            Some(vec![zu16(t.format()), zu16(t.axis_count()), zu16(t.flags().bits()), zu16(t.value_name_id().to_u16()), rows(t.axis_values().iter().map(|r| (r.axis_index(), r.value().to_bits() as u32)).collect())])
+        });
+    }
+
+    // ---- types WITH offsets (CSchemaObj) ----
+    let rand_classdef = |rng: &mut Rng| -> wt::layout::ClassDef {
+        use wt::layout::*;
+        let n = slen(rng);
+        if rng.chance(1, 2) {
+            ClassDef::format_1(gid(r16(rng)), (0..n).map(|_| r16(rng)).collect())
+        } else {
+            ClassDef::format_2((0..n).map(|_| ClassRangeRecord::new(gid(r16(rng)), gid(r16(rng)), r16(rng))).collect())
+        }
+    };
+    let null16 = |range: std::ops::Range<usize>, o: Nullable<Offset16>| if o.is_null() { V::Null } else { V::At(range, o.offset().to_u32()) };
+    let null32 = |range: std::ops::Range<usize>, o: Nullable<Offset32>| if o.is_null() { V::Null } else { V::At(range, o.offset().to_u32()) };
+    let mm = |v: MajorMinor| V::Z(((v.major as i128) << 16) | v.minor as i128);
+    let opt = |rng: &mut Rng| rng.chance(1, 2);
+    // GDEF: hand-computed version 1.0 / 1.2 / 1.3, four nullable Offset16, gated Offset16, gated Offset32
+    {
+        use wt::gdef::*;
+        use wt::layout::CoverageTable;
+        use wt::variations::*;
+        let gcd = opt(rng).then(|| rand_classdef(rng));
+        let macd = opt(rng).then(|| rand_classdef(rng));
+        // children with their own subtables: the embedded bytes are compared with the standalone compilation
+        let al = rng.chance(1, 4).then(|| AttachList::new(CoverageTable::format_1(vec![]), vec![]));
+        let lcl = rng.chance(1, 4).then(|| LigCaretList::new(CoverageTable::format_1((0..slen(rng)).map(|i| gid(i as u16)).collect()), vec![]));
+        let mgs = rng.chance(1, 3).then(|| MarkGlyphSets::new(vec![]));
+        let ivs = rng.chance(1, 3).then(|| ItemVariationStore::new(VariationRegionList::new(r16(rng), vec![]), vec![]));
+        let mut g = Gdef::new(gcd.clone(), al.clone(), lcl.clone(), macd.clone());
+        g.mark_glyph_sets_def = mgs.clone().into();
+        g.item_var_store = ivs.clone().into();
+        // `version` is hand-computed (Opaque): write-fonts/src/tables/gdef.rs compute_version
+        let (ver, gate12, gate13): (i128, bool, bool) = if ivs.is_some() {
+            (0x0001_0003, true, true)
+        } else if mgs.is_some() {
+            (0x0001_0002, true, false)
+        } else {
+            (0x0001_0000, false, false)
+        };
+        let w = vec![V::Z(ver), kid_opt(&gcd), kid_opt(&al), kid_opt(&lcl), kid_opt(&macd), if gate12 { kid_opt(&mgs) } else { V::Absent }, if gate13 { kid_opt(&ivs) } else { V::Absent }];
+        shard_obj(st, cw, "Gdef", &g, w, &|b| {
+            let t = rt::gdef::Gdef::read(FontData::new(b)).ok()?;
+            let sh = t.shape();
+            let mut own = sh.mark_attach_class_def_offset_byte_range().end;
+            let g12 = match (t.mark_glyph_sets_def_offset(), sh.mark_glyph_sets_def_offset_byte_range()) {
+                (Some(o), Some(r)) => {
+                    own = r.end;
+                    null16(r, o)
+                }
+                (None, None) => V::Absent,
+                _ => return None,
+            };
+            let g13 = match (t.item_var_store_offset(), sh.item_var_store_offset_byte_range()) {
+                (Some(o), Some(r)) => {
+                    own = r.end;
+                    null32(r, o)
+                }
+                (None, None) => V::Absent,
+                _ => return None,
+            };
+            Some((own, vec![mm(t.version()), null16(sh.glyph_class_def_offset_byte_range(), t.glyph_class_def_offset()), null16(sh.attach_list_offset_byte_range(), t.attach_list_offset()), null16(sh.lig_caret_list_offset_byte_range(), t.lig_caret_list_offset()), null16(sh.mark_attach_class_def_offset_byte_range(), t.mark_attach_class_def_offset()), g12, g13]))
+        });
+    }
+    // Script: nullable Offset16 + record array whose rows hold a Tag and a NON-nullable Offset16
+    {
+        use wt::layout::*;
+        let n = len(rng);
+        let dflt = opt(rng).then(|| {
+            let k = slen(rng);
+            rand_langsys(rng, k)
+        });
+        // many records: small children (the packer shares identical ones, the offsets then coincide)
+        let recs: Vec<(Tag, LangSys)> = (0..n)
+            .map(|_| {
+                let k = if n > 9 { rng.below(2) as usize } else { slen(rng) };
+                (tag(rng), rand_langsys(rng, k))
+            })
+            .collect();
+        let s = Script::new(dflt.clone(), recs.iter().map(|r| LangSysRecord::new(r.0, r.1.clone())).collect());
+        let w = vec![kid_opt(&dflt), V::Z(0), V::Arr(recs.iter().map(|r| vec![ztag(r.0), kid(&r.1)]).collect())];
+        shard_obj(st, cw, "Script", &s, w, &|b| {
+            let t = rt::layout::Script::read(FontData::new(b)).ok()?;
+            let sh = t.shape();
+            let arr = sh.lang_sys_records_byte_range();
+            let rows = t
+                .lang_sys_records()
+                .iter()
+                .enumerate()
+                .map(|(i, r)| {
+                    // LangSysRecord = Tag (4) + Offset16 (2)
+                    let at = arr.start + 6 * i + 4;
+                    let o = r.lang_sys_offset();
+                    vec![ztag(r.lang_sys_tag()), if o.to_u32() == 0 { V::Null } else { V::At(at..at + 2, o.to_u32()) }]
+                })
+                .collect();
+            Some((arr.end, vec![null16(sh.default_lang_sys_offset_byte_range(), t.default_lang_sys_offset()), zu16(t.lang_sys_count()), V::Arr(rows)]))
+        });
+    }
+    // HVAR: literal version, non-nullable Offset32 + three nullable Offset32
+    {
+        use wt::variations::*;
+        let ivs = ItemVariationStore::new(VariationRegionList::new(r16(rng), vec![]), vec![]);
+        let map = |rng: &mut Rng| -> Option<DeltaSetIndexMap> {
+            opt(rng).then(|| {
+                let fmt = EntryFormat::from_bits_truncate(rng.below(64) as u8);
+                let entry = ((fmt.bits() >> 4) & 3) as usize + 1;
+                let n = slen(rng);
+                let data: Vec<u8> = (0..n * entry).map(|_| rng.next_u32() as u8).collect();
+                if rng.chance(1, 2) {
+                    DeltaSetIndexMap::format_0(fmt, n as u16, data)
+                } else {
+                    DeltaSetIndexMap::format_1(fmt, n as u32, data)
+                }
+            })
+        };
+        let (aw, lsb, rsb) = (map(rng), map(rng), map(rng));
+        let h = wt::hvar::Hvar::new(ivs.clone(), aw.clone(), lsb.clone(), rsb.clone());
+        let w = vec![V::Z(0), kid(&ivs), kid_opt(&aw), kid_opt(&lsb), kid_opt(&rsb)];
+        shard_obj(st, cw, "Hvar", &h, w, &|b| {
+            let t = rt::hvar::Hvar::read(FontData::new(b)).ok()?;
+            let sh = t.shape();
+            let o = t.item_variation_store_offset();
+            let r = sh.item_variation_store_offset_byte_range();
+            Some((
+                sh.rsb_mapping_offset_byte_range().end,
+                vec![
+                    mm(t.version()),
+                    if o.to_u32() == 0 { V::Null } else { V::At(r, o.to_u32()) },
+                    null32(sh.advance_width_mapping_offset_byte_range(), t.advance_width_mapping_offset()),
+                    null32(sh.lsb_mapping_offset_byte_range(), t.lsb_mapping_offset()),
+                    null32(sh.rsb_mapping_offset_byte_range(), t.rsb_mapping_offset()),
+                ],
+            ))
+        });
+    }
+    // BASE: hand-computed version 1.0 / 1.1, two nullable Offset16, gated nullable Offset32
+    {
+        use wt::base::*;
+        use wt::variations::*;
+        let axis = |rng: &mut Rng| opt(rng).then(|| Axis::new(None, BaseScriptList::new(vec![])));
+        let (ha, va) = (axis(rng), axis(rng));
+        let ivs = opt(rng).then(|| ItemVariationStore::new(VariationRegionList::new(r16(rng), vec![]), vec![]));
+        let mut bt = Base::new(ha.clone(), va.clone());
+        bt.item_var_store = ivs.clone().into();
+        // `version` is hand-computed (Opaque): write-fonts/src/tables/base.rs compute_version
+        let w = vec![V::Z(if ivs.is_some() { 0x0001_0001 } else { 0x0001_0000 }), kid_opt(&ha), kid_opt(&va), if ivs.is_some() { kid_opt(&ivs) } else { V::Absent }];
+        shard_obj(st, cw, "Base", &bt, w, &|b| {
+            let t = rt::base::Base::read(FontData::new(b)).ok()?;
+            let sh = t.shape();
+            let mut own = sh.vert_axis_offset_byte_range().end;
+            let g11 = match (t.item_var_store_offset(), sh.item_var_store_offset_byte_range()) {
+                (Some(o), Some(r)) => {
+                    own = r.end;
+                    null32(r, o)
+                }
+                (None, None) => V::Absent,
+                _ => return None,
+            };
+            Some((own, vec![mm(t.version()), null16(sh.horiz_axis_offset_byte_range(), t.horiz_axis_offset()), null16(sh.vert_axis_offset_byte_range(), t.vert_axis_offset()), g11]))
+        });
+    }
+    // FeatureVariations: u32 count, records of two nullable Offset32
+    {
+        use wt::layout::*;
+        let n = slen(rng);
+        let recs: Vec<(Option<ConditionSet>, Option<FeatureTableSubstitution>)> = (0..n).map(|_| (opt(rng).then(|| ConditionSet::new(vec![])), opt(rng).then(|| FeatureTableSubstitution::new(vec![])))).collect();
+        let fv = FeatureVariations::new(recs.iter().map(|r| FeatureVariationRecord::new(r.0.clone(), r.1.clone())).collect());
+        let w = vec![V::Z(0), V::Z(0), V::Arr(recs.iter().map(|r| vec![kid_opt(&r.0), kid_opt(&r.1)]).collect())];
+        shard_obj(st, cw, "FeatureVariations", &fv, w, &|b| {
+            let t = rt::layout::FeatureVariations::read(FontData::new(b)).ok()?;
+            let arr = t.shape().feature_variation_records_byte_range();
+            let rows = t
+                .feature_variation_records()
+                .iter()
+                .enumerate()
+                .map(|(i, r)| {
+                    // FeatureVariationRecord = Offset32 + Offset32
+                    let at = arr.start + 8 * i;
+                    vec![null32(at..at + 4, r.condition_set_offset()), null32(at + 4..at + 8, r.feature_table_substitution_offset())]
+                })
+                .collect();
+            Some((arr.end, vec![mm(t.version()), zu32(t.feature_variation_record_count()), V::Arr(rows)]))
+        });
     }
 }
 
